@@ -28,7 +28,9 @@ func TestMain(m *testing.M) {
 type Step struct {
 	Kind string `json:"kind"` // insert | update | delete | search
 	Via  int    `json:"via"`  // entry node
-	Down int    `json:"down"` // -1, or the node that is unavailable during this request (never the entry node)
+	// ViaGateway: in a case with a gateway the request enters through it instead
+	ViaGateway bool `json:"viaGateway,omitempty"`
+	Down       int  `json:"down"` // -1, or the node that is unavailable during this request (never the entry node)
 	// Hang: the Down node is not unreachable but hung: it accepts the requests and does not answer within
 	// the RPC timeout (only in cases with a 1 s timeout)
 	Hang   bool          `json:"hang,omitempty"`
@@ -56,7 +58,10 @@ type SearchSpec struct {
 
 type Case struct {
 	// HangCase: the nodes run with an RPC timeout of one second and "down" steps may be hung peers
-	HangCase           bool   `json:"hangCase,omitempty"`
+	HangCase bool `json:"hangCase,omitempty"`
+	// Gateway: a further node that is not in the server list (it stores nothing, every request it takes is
+	// routed to the listed servers); its own list names exactly the storage servers
+	Gateway            bool   `json:"gateway,omitempty"`
 	Nodes              int    `json:"nodes"`
 	MaxShardPointCount int64  `json:"maxShardPointCount"`
 	Steps              []Step `json:"steps"`
@@ -99,6 +104,7 @@ func genDoc(t *rapid.T, label string) model.Doc {
 func genCase(t *rapid.T) Case {
 	c := Case{Nodes: rapid.IntRange(1, 3).Draw(t, "nodes"), MaxShardPointCount: int64(rapid.IntRange(2, 5).Draw(t, "mspc"))}
 	c.HangCase = c.Nodes > 1 && rapid.IntRange(0, 11).Draw(t, "hangCase") == 0
+	c.Gateway = rapid.IntRange(0, 4).Draw(t, "gateway") == 0
 	hangsLeft := 2
 	pool := poolIds(24)
 	stored := map[uuid.UUID]bool{}
@@ -108,6 +114,7 @@ func genCase(t *rapid.T) Case {
 	}
 	for i := 0; i < n; i++ {
 		st := Step{Via: rapid.IntRange(0, c.Nodes-1).Draw(t, fmt.Sprintf("via%d", i)), Down: -1}
+		st.ViaGateway = c.Gateway && rapid.Bool().Draw(t, fmt.Sprintf("viagw%d", i))
 		k := rapid.IntRange(0, 9).Draw(t, fmt.Sprintf("k%d", i))
 		if i == 0 {
 			k = 0
@@ -268,7 +275,7 @@ func (e *env) locate(via int, ids []uuid.UUID) (map[uuid.UUID][]string, map[stri
 		if len(vals) == 0 {
 			continue
 		}
-		req := cluster.RPCSearchPointsRequest{RPCRequestArgs: cluster.RPCRequestArgs{Source: e.servers[via], Dest: srv}, Collection: col, ShardId: sh,
+		req := cluster.RPCSearchPointsRequest{RPCRequestArgs: cluster.RPCRequestArgs{Source: e.specs[via].Name(), Dest: srv}, Collection: col, ShardId: sh,
 			SearchRequest: models.SearchRequest{Query: models.Query{Property: "_id", StringArray: &models.SearchStringArrayOptions{Value: vals, Operator: models.OperatorContainsAny}}}}
 		var resp cluster.RPCSearchPointsResponse
 		if err := e.nodes[via].RPCSearchPoints(&req, &resp); err != nil {
@@ -303,11 +310,22 @@ func execCase(c Case) (res vt.Result) {
 		return append(append([]string{}, e.servers[k:]...), e.servers[:k]...)
 	}
 	for k := 0; k < c.Nodes; k++ {
-		n, err := drive.NewClusterNode(filepath.Join(dir, fmt.Sprintf("node%d", k)), e.specs[k], serversOf(k), nodeOpts, c.Nodes > 1)
+		n, err := drive.NewClusterNode(filepath.Join(dir, fmt.Sprintf("node%d", k)), e.specs[k], serversOf(k), nodeOpts, c.Nodes > 1 || c.Gateway)
 		if err != nil {
 			return vt.Result{Err: fmt.Errorf("node %d: %v", k, err)}
 		}
 		e.nodes = append(e.nodes, n)
+	}
+	if c.Gateway {
+		host := drive.LoopbackHost(c.Nodes + 1)
+		spec := drive.NodeSpec{Host: host, Port: drive.FreePort(host)}
+		gw, err := drive.NewClusterNode(filepath.Join(dir, "gateway"), spec, append([]string{}, e.servers...), nodeOpts, true)
+		if err != nil {
+			return vt.Result{Err: fmt.Errorf("gateway: %v", err)}
+		}
+		e.nodes = append(e.nodes, gw)
+		e.specs = append(e.specs, spec)
+		rec.Count("cases_with_a_gateway", 1)
 	}
 	defer func() {
 		cluster.VerifFaultFn.Store(nil)
@@ -342,12 +360,20 @@ func execCase(c Case) (res vt.Result) {
 			rec.Count("server_restarts", 1)
 			continue
 		}
-		col, err := e.collection(st.Via)
+		via := st.Via
+		if c.Gateway && st.ViaGateway {
+			via = c.Nodes
+		}
+		viaServer := ""
+		if via < len(e.servers) {
+			viaServer = e.servers[via]
+		}
+		col, err := e.collection(via)
 		if err != nil {
 			return fail("get collection: %v", err)
 		}
 		// where does every pool id live before the step?
-		where, serverOf, err := e.locate(st.Via, pool)
+		where, serverOf, err := e.locate(via, pool)
 		if err != nil {
 			return fail("locating points: %v", err)
 		}
@@ -390,7 +416,7 @@ func execCase(c Case) (res vt.Result) {
 		}
 		switch st.Kind {
 		case "insert":
-			failed, err := e.nodes[st.Via].InsertPoints(col, drive.ToPoints(st.Points))
+			failed, err := e.nodes[via].InsertPoints(col, drive.ToPoints(st.Points))
 			if err != nil {
 				return fail("insert failed: %v", err)
 			}
@@ -422,7 +448,7 @@ func execCase(c Case) (res vt.Result) {
 				}
 				return false
 			}
-			failed, err := e.nodes[st.Via].UpdatePoints(col, drive.ToPoints(st.Points))
+			failed, err := e.nodes[via].UpdatePoints(col, drive.ToPoints(st.Points))
 			if err != nil {
 				return fail("update failed: %v", err)
 			}
@@ -450,7 +476,7 @@ func execCase(c Case) (res vt.Result) {
 			}
 			collateral := func(id uuid.UUID) bool {
 				for _, sh := range where[id] {
-					if rejectedServers[serverOf[sh]] && serverOf[sh] != e.servers[st.Via] {
+					if rejectedServers[serverOf[sh]] && serverOf[sh] != viaServer {
 						return true
 					}
 				}
@@ -486,7 +512,7 @@ func execCase(c Case) (res vt.Result) {
 			}
 			m.Update(apply)
 		case "delete":
-			failed, err := e.nodes[st.Via].DeletePoints(col, st.Ids)
+			failed, err := e.nodes[via].DeletePoints(col, st.Ids)
 			if err != nil {
 				return fail("delete failed: %v", err)
 			}
@@ -512,7 +538,7 @@ func execCase(c Case) (res vt.Result) {
 			m.Delete(apply)
 		case "search":
 			req := st.Search.request()
-			results, err := e.nodes[st.Via].SearchPoints(col, drive.CopyRequest(req))
+			results, err := e.nodes[via].SearchPoints(col, drive.CopyRequest(req))
 			if err != nil {
 				if !anyShardDown {
 					return fail("search failed although every shard server is available: %v", err)
